@@ -10,32 +10,97 @@ namespace C10
 /-- the decoder panics exactly on the finding classes, with exactly that panic -/
 theorem decode_panic_iff (p : Bytes) (k : Panic) :
     decode p = .panic k ↔ Spec.decodePanicClass p = some k := by
-  sorry
+  exact Proc.decode_panic_iff p k
 
 theorem decode_no_panic_partial (p : Bytes) (h : Spec.decodePanicClass p = none) :
     (decode p).isPanic = false := by
-  sorry
+  cases hd : decode p with
+  | panic k => rw [(decode_panic_iff p k).mp hd] at h; simp at h
+  | ok d => rfl
+  | err e => rfl
 
 theorem getLength_never_panics (p : Bytes) : (getLength p).isPanic = false := by
-  sorry
+  unfold getLength
+  split
+  · rfl
+  · simp only []
+    split <;> rfl
 
 /-- the request processor, validly configured and with a response buffer of ≥ 64 bytes,
 panics exactly on the finding classes -/
 theorem process_panic_iff (c : Ctx) (p buf : Bytes) (k : Panic)
     (hc : Spec.configOk c = true) (hb : 64 ≤ buf.length) :
     (process c p buf).2.1 = .panic k ↔ Spec.processPanicClass c.vendorIds.length p = some k := by
-  sorry
+  unfold Spec.processPanicClass
+  rcases Proc.process_cases c p buf with ⟨hn, hp⟩ | ⟨ha, hu, hd, c', k', hk, hp⟩ | ⟨ha, hu, hd, c', cc, rest, _, _, _, _, hk, hp⟩
+  · -- no dispatch
+    have e1 : (process c p buf).2.1 = .panic k ↔ decode p = .panic k := by
+      rw [hp]; cases decode p <;> simp [Out.map]
+    rw [e1, decode_panic_iff]
+    cases hcl : Spec.decodePanicClass p with
+    | some k0 => simp
+    | none =>
+      have : Spec.dispatchPanicClass c.vendorIds.length p = none := by
+        rw [Proc.dispatchPanicClass_eq]
+        by_cases ha : Spec.isAcceptedRequest p = true
+        · exfalso
+          obtain ⟨h12, hh, hcn, hr, _, _⟩ := (Proc.acceptedRequest_iff p).mp ha
+          by_cases hu : Spec.reqUnimpl (byteAt p 10) = true
+          · have := Proc.decode_request p h12 hh hcn hr
+            rw [if_pos hu] at this
+            rw [(decode_panic_iff p _).mp this] at hcl
+            simp at hcl
+          · have := hn _ (Proc.decode_accepted p ha (by simpa using hu))
+            simp [hcn, hr] at this
+        · rw [if_neg ha]
+      simp [this]
+  · have hcl : Spec.decodePanicClass p = none := by
+      cases hx : Spec.decodePanicClass p with
+      | none => rfl
+      | some k0 => rw [(decode_panic_iff p k0).mpr hx] at hd; simp at hd
+    rw [hcl, hp, Proc.dispatchPanicClass_eq, if_pos ha]
+    have ho := Proc.dispatch_outcome c (byteAt p 10) (byteAt p 6) (fun i => byteAt p (11 + i)) buf hc hb hu
+    simp only [Nat.add_zero] at ho
+    cases hx : Proc.dispPanic c.vendorIds.length (byteAt p 10) (byteAt p 11) with
+    | some k0 =>
+      rw [hx] at ho
+      obtain ⟨c'', ho⟩ := ho
+      rw [hk] at ho
+      simp only [Prod.mk.injEq, Out.panic.injEq] at ho
+      simp [ho.2.1]
+    | none =>
+      rw [hx] at ho
+      obtain ⟨c'', n, b', ho⟩ := ho
+      rw [hk] at ho
+      simp at ho
+  · have hcl : Spec.decodePanicClass p = none := by
+      cases hx : Spec.decodePanicClass p with
+      | none => rfl
+      | some k0 => rw [(decode_panic_iff p k0).mpr hx] at hd; simp at hd
+    rw [hcl, hp, Proc.dispatchPanicClass_eq, if_pos ha]
+    have ho := Proc.dispatch_outcome c (byteAt p 10) (byteAt p 6) (fun i => byteAt p (11 + i)) buf hc hb hu
+    simp only [Nat.add_zero] at ho
+    cases hx : Proc.dispPanic c.vendorIds.length (byteAt p 10) (byteAt p 11) with
+    | some k0 =>
+      rw [hx] at ho
+      obtain ⟨c'', ho⟩ := ho
+      rw [hk] at ho
+      simp at ho
+    | none => simp
 
 theorem process_no_panic_partial (c : Ctx) (p buf : Bytes)
     (hc : Spec.configOk c = true) (hb : 64 ≤ buf.length)
     (h : Spec.processPanicClass c.vendorIds.length p = none) :
     (process c p buf).2.1.isPanic = false := by
-  sorry
+  cases hd : (process c p buf).2.1 with
+  | panic k => rw [(process_panic_iff c p buf k hc hb).mp hd] at h; simp at h
+  | ok d => rfl
+  | err e => rfl
 
 /-- a valid configuration stays valid: the claim holds after every prior history -/
 theorem config_preserved (c : Ctx) (ops : List Op) (hc : Spec.configOk c = true) :
     Spec.configOk (runOps c ops).1 = true := by
-  sorry
+  exact Proc.configOk_runOps ops c hc
 
 end C10
 end Mctp
